@@ -42,6 +42,11 @@ VParse(x) ==
    \o FailIf(~NoFrees(x.refree), "C03", "repeated free-members released something")
    \o FailIf(x.fault # 0, "C03", "memory fault during the call")
 
-V(x) == IF x.e = "Parse" THEN VParse(x) ELSE Fail("C01", "unknown event")
+\* the stand-alone IPv4 parser: succeeds exactly on IPv4address (RFC 3986), with the octets by value; never reads outside the range
+VIp4(x) == LET ok == Matches("IPv4address", x.in) IN
+     FailIf(x.fault # 0, "C03", "uriParseIpFourAddress read outside the range")
+  \o FailIf(x.fault = 0 /\ (x.rc = 0) # ok, "C02", "uriParseIpFourAddress accepts something else than IPv4address")
+  \o FailIf(x.fault = 0 /\ ok /\ x.rc = 0 /\ x.bytes # Ip4Bytes(x.in), "C02", "uriParseIpFourAddress: octet values differ")
+V(x) == IF x.e = "Parse" THEN VParse(x) ELSE IF x.e = "Ip4" THEN VIp4(x) ELSE Fail("C01", "unknown event")
 TNext == TStep(V)
 =============================================================================
